@@ -23,14 +23,15 @@ META = {
     "level": "other",
     "files": ["toqito/state_props/negativity.py", "toqito/state_props/log_negativity.py", "toqito/state_props/entanglement_of_formation.py",
               "toqito/state_props/concurrence.py", "toqito/state_props/schmidt_rank.py", "toqito/state_ops/schmidt_decomposition.py",
-              "toqito/state_props/sk_vec_norm.py", "toqito/state_props/is_product.py", "toqito/state_props/purity.py",
+              "toqito/state_props/sk_vec_norm.py", "toqito/matrix_props/sk_norm.py", "toqito/state_props/is_product.py", "toqito/state_props/purity.py",
               "toqito/state_props/von_neumann_entropy.py", "toqito/state_props/l1_norm_coherence.py",
               "toqito/matrix_ops/to_density_matrix.py", "toqito/matrix_props/is_density.py", "toqito/channels/partial_trace.py",
               "toqito/perms/swap.py", "toqito/perms/permute_systems.py"],
     "functions": ["toqito.state_props.negativity", "toqito.state_props.log_negativity", "toqito.state_props.entanglement_of_formation",
                   "toqito.state_props.concurrence", "toqito.state_props.schmidt_rank", "toqito.state_ops.schmidt_decomposition",
                   "toqito.state_props.sk_vector_norm", "toqito.state_props.is_product", "toqito.state_props.purity",
-                  "toqito.state_props.von_neumann_entropy", "toqito.state_props.l1_norm_coherence"],
+                  "toqito.state_props.von_neumann_entropy", "toqito.state_props.l1_norm_coherence",
+                  "toqito.matrix_props.sk_operator_norm (return value against QF_NRA Rayleigh-quotient queries)"],
     "explanation": "Bounded symbolic execution of the real functions with every amplitude / matrix entry a solver variable. LAPACK "
                    "kernels (svd, nuclear norm, matrix_rank, eig, eigvals, eigh) are uninterpreted functions of the normal form of "
                    "their argument, so 'value = documented formula' is decided as: same kernel, argument entry-wise equal to the "
@@ -40,7 +41,11 @@ META = {
                    "Schmidt factors rebuild the state exactly, up to the terms the rank threshold removed (every threshold path is "
                    "explored). Polynomial formulas (purity, l1-norm of coherence) are exact; the entropy is decided as "
                    "-sum over the positive eigenvalue symbols of lambda log2 lambda for each sign pattern; the concurrence as "
-                   "max(0, 2 max_k a_k - sum_k a_k), a_k = |sqrt(lambda_k)|, over every ordering path of np.sort.",
+                   "max(0, 2 max_k a_k - sum_k a_k), a_k = |sqrt(lambda_k)|, over every ordering path of np.sort. "
+                   "S(k) operator norm: (lower, upper) returned by the real sk_operator_norm for 9 (thorough 13) operators (scaled rank-one, near rank-one, "
+                   "projector, generic PSD, indefinite; dims (2,2), (2,3), (3,2), (3,3); k = 1, 2); for explicit product frames (Schmidt bases of leading "
+                   "eigenvectors, of the harness' own local maximisers, computational basis) z3 decides over all coefficient vectors c in C^k that no "
+                   "sum_i c_i a_i (x) b_i exceeds the upper bound and that some such vector reaches the lower bound (witness).",
     "bounds": {
         "quick": "local dims (2,2), (2,3), (3,2), (3,3) (negativity, Schmidt data, S(k) norm k=1..min d, product test), (2,4) for the "
                  "rank; operator Schmidt decomposition / rank on 2x2; entropy, purity d<=3; l1 coherence N<=6; concurrence 4x4",
@@ -59,7 +64,8 @@ META = {
         "invariance under local unitaries (all quantities, operator Schmidt rank), additivity of the entropy on products",
         "the product test accepting exactly product vectors / operators: decided is that the verdict is the threshold test on the "
         "second singular value of the amplitude matrix and that the returned factors rebuild the state",
-        "sk_operator_norm and its bracket (randomised iteration + SDPs), is_block_positive",
+        "sk_operator_norm: that the returned bounds bracket the supremum over ALL Schmidt-rank-k vectors (NP-hard; decided is the bracket on "
+        "explicit families of Schmidt-rank-<=k vectors, per instance); is_block_positive",
         "entanglement_of_formation on density matrices (scipy.linalg.orth: data-dependent shape; two-qubit mixed branch)",
         "equality of the spectral norm of a column vector and its Euclidean norm (sk_vector_norm with k >= min dim on (n,1) input "
         "calls the ord-2 kernel)", "numerical accuracy of the kernels, rank tolerances, np.spacing values",
@@ -900,6 +906,20 @@ def sk_instances(T):
         ("generic complex PSD (G G^dagger), dims (2,2)", 3 * G4 @ G4.conj().T, (2, 2), 1, False),
         ("real symmetric indefinite, dims (3,3)", (H9 + H9.T) / 2, (3, 3), 2, False),
     ]
+    # unequal local dimensions beyond 2x3 (the analytic bounds of the Hermitian branch run, the transpose-map SDP is not exact):
+    # two large eigenvalues on orthogonal maximally entangled vectors plus a flat part, in locally rotated bases
+    e2, e4 = np.eye(2), np.eye(4)
+    phi1 = (np.kron(e2[0], e4[0]) + np.kron(e2[1], e4[1])) / np.sqrt(2)
+    phi2 = (np.kron(e2[0], e4[2]) + np.kron(e2[1], e4[3])) / np.sqrt(2)
+    Ua = np.linalg.qr(rng.normal(size=(2, 2)) + 1j * rng.normal(size=(2, 2)))[0]
+    Ub = np.linalg.qr(rng.normal(size=(4, 4)) + 1j * rng.normal(size=(4, 4)))[0]
+    X24 = np.kron(Ua, Ub) @ (P(phi1) + 0.9 * P(phi2) + 0.05 * np.eye(8)) @ np.kron(Ua, Ub).conj().T
+    SW = np.zeros((8, 8))
+    for i_ in range(2):
+        for j_ in range(4):
+            SW[j_ * 2 + i_, i_ * 4 + j_] = 1
+    out += [("two entangled eigenvectors + 0.05 I, locally rotated, dims (2,4)", X24, (2, 4), 1, False),
+            ("two entangled eigenvectors + 0.05 I, locally rotated, dims (4,2)", SW @ X24 @ SW.T, (4, 2), 1, False)]
     if T:
         out += [("antisymmetric projector, dims (3,3)", asym, (3, 3), 2, False),
                 ("generic complex PSD (A A^dagger), dims (3,2)", A @ A.conj().T, (3, 2), 1, False),
